@@ -56,6 +56,9 @@ def make_case(tier, seed, index):
             k = int(rng.integers(1, 4))
             ts = sorted({y0} | {float(y0 + rng.uniform(0, 1) * (s["end"] - y0 + 1)) for _ in range(k - 1)})
             scen = {"par": p["name"], "pop": spec["pops"][int(rng.integers(0, len(spec["pops"])))], "t": ts, "y": [gen.sample_value(rng, p["format"], "mild") for _ in ts], "interpolation": "linear" if rng.random() < 0.5 else "previous"}
+            if len(ts) >= 2 and rng.random() < 0.4:
+                order_ = [int(i) for i in rng.permutation(len(ts))]  # the overwrite points may be listed in any order
+                scen["t"], scen["y"] = [scen["t"][i] for i in order_], [scen["y"][i] for i in order_]
     return {"kind": "generated", "spec": spec, "progspec": ps, "scenario": scen}
 
 
@@ -272,7 +275,8 @@ def run_case(case):
         after = t >= min(scen["t"])
         if np.any(after) and not (pset is not None and (scen["par"], scen["pop"]) in pset.covouts):
             R.count("scenario_runs")
-            tt, yy = np.array(scen["t"]), np.array(scen["y"])
+            o_ = np.argsort(np.array(scen["t"]))
+            tt, yy = np.array(scen["t"])[o_], np.array(scen["y"])[o_]
             if scen["interpolation"] == "linear":
                 exp = np.interp(t[after], tt, yy)
             else:
